@@ -44,7 +44,7 @@ WrapE(c, e) ==
     [] c.k = "elifcond" -> IfChain(Bool(FALSE), <<Text(<<"N">>)>>, <<[c |-> e, b |-> <<Text(<<"T">>)>>]>>, <<Text(<<"F">>)>>, TRUE)
     [] c.k = "iter"  -> For("", "v", e, <<Text(<<"i">>)>>)
 
-SCs == {"emit", "silent", "let", "assign", "ifbody", "elsebody", "forbody", "forsilent", "forsecond", "fnbody", "fnreturn",
+SCs == {"foriter", "formap", "foriterif", "emit", "silent", "let", "assign", "ifbody", "elsebody", "forbody", "forsilent", "forsecond", "fnbody", "fnreturn",
         "blk", "blkown", "contentfor", "contentofdefault", "partial", "layout", "partialdata", "nestedpartial"}
 
 PName(s) == s
@@ -56,6 +56,9 @@ WrapS(c, e) ==
     [] c = "ifbody"    -> [prog |-> <<Emit(If(Bool(TRUE), <<Text(<<"a">>), Emit(e), Text(<<"b">>)>>))>>, parts |-> EmptyScope]
     [] c = "elsebody"  -> [prog |-> <<Emit(IfElse(Bool(FALSE), <<Text(<<"a">>)>>, <<Text(<<"c">>), Code(e), Text(<<"b">>)>>))>>, parts |-> EmptyScope]
     [] c = "forbody"   -> [prog |-> <<Emit(For("", "v", Arr(<<IntL(1), IntL(2)>>), <<Emit(Id("v")), Emit(e)>>))>>, parts |-> EmptyScope]
+    [] c = "foriter"   -> [prog |-> <<Emit(For("", "v", Call("range", <<IntL(1), IntL(2)>>), <<Emit(Id("v")), Emit(e)>>))>>, parts |-> EmptyScope]
+    [] c = "foriterif" -> [prog |-> <<Emit(For("", "v", Call("until", <<IntL(3)>>), <<Emit(Id("v")), Code(If(Bin("==", Id("v"), IntL(1)), <<Code(e)>>))>>))>>, parts |-> EmptyScope]
+    [] c = "formap"    -> [prog |-> <<Emit(For("k", "v", Hash(<<"a">>, <<IntL(1)>>), <<Emit(Id("v")), Emit(e)>>))>>, parts |-> EmptyScope]
     [] c = "forsilent" -> [prog |-> <<Emit(For("", "v", Arr(<<IntL(1), IntL(2)>>), <<Emit(Id("v")), Code(e)>>))>>, parts |-> EmptyScope]
     [] c = "forsecond" -> [prog |-> <<Emit(For("", "v", Arr(<<IntL(1), IntL(2)>>), <<Emit(Id("v")), Code(If(Bin("==", Id("v"), IntL(2)), <<Emit(e)>>))>>))>>, parts |-> EmptyScope]
     [] c = "fnbody"    -> [prog |-> <<Let("g", FnLit(<<>>, <<Text(<<"a">>), Emit(e)>>)), Emit(Call("g", <<>>))>>, parts |-> EmptyScope]
